@@ -368,6 +368,30 @@ func c16TxCheck(c c16Tx) (fs []rep.Finding) {
 				}
 			}
 		}
+		// a list may name an outpoint more than once (the same element twice, or again with another amount):
+		// the list that comes back is the list that went in
+		{
+			rep2 := append(append(bt.UTXOs{}, us...), us[0], &bt.UTXO{TxID: append([]byte(nil), us[0].TxID...), Vout: us[0].Vout, Satoshis: us[0].Satoshis + 11, LockingScript: us[0].LockingScript})
+			if b, err := json.Marshal(rep2.NodeJSON()); err == nil {
+				var back bt.UTXOs
+				if err := json.Unmarshal(b, back.NodeJSON()); err != nil || len(back) != len(rep2) {
+					fs = append(fs, rep.F("UTXOs.node|repeated-outpoint", fmt.Sprintf("a list of %d entries naming one outpoint three times came back with %d entries (err=%v)", len(rep2), len(back), err)))
+				} else {
+					for i := range rep2 {
+						if back[i].Satoshis != rep2[i].Satoshis || back[i].Vout != rep2[i].Vout || !bytes.Equal(back[i].TxID, rep2[i].TxID) {
+							fs = append(fs, rep.F("UTXOs.node|repeated-outpoint", fmt.Sprintf("utxo %d", i)))
+							break
+						}
+					}
+				}
+			}
+			if b, err := json.Marshal([]*bt.UTXO(rep2)); err == nil {
+				var back []*bt.UTXO
+				if err := json.Unmarshal(b, &back); err != nil || len(back) != len(rep2) {
+					fs = append(fs, rep.F("[]UTXO.json|repeated-outpoint", fmt.Sprintf("%d entries came back as %d (err=%v)", len(rep2), len(back), err)))
+				}
+			}
+		}
 		b, err = json.Marshal([]*bt.UTXO(us))
 		if err == nil {
 			var back []*bt.UTXO
@@ -411,7 +435,7 @@ func c16Boundary() []uint64 {
 
 func init() {
 	p := register(&Prop{ID: "C16", Level: "exploration",
-		Rule: "exhaustive: (amounts) every amount 0..2,000,000 (quick) / 0..100,000,000 (thorough) and ~8,300 decimal-boundary amounts up to 21e14 through Output and UTXO in both JSON dialects (marshal -> unmarshal -> equal satoshis/script/txid/vout); (transactions) product of shapes nIn 0..3 x nOut 0..3 x signing state {unsigned(nil scripts), first input only, all, empty scripts} x 59 output-script kinds (7 multisig-shaped scripts whose counts do not match their keys, P2PKH, empty, data with pushes of 1..5 bytes, multisig, inscription, odd pushes, 300 bytes, 12 scripts that end inside a push: every partial PUSHDATA1/2/4 length field and short payloads, and the inscription template with each token replaced by an empty PUSHDATA1 / PUSHDATA4 push) x boundary amounts x version/locktime values, each marshalled as Tx (library and node dialect), Txs list (node), []*Tx, per-output Output (both), UTXOs list (node) and []*UTXO, a Tx variable decoded into twice (both dialects), the node-dialect lists also decoded into a list variable that was decoded into before (shorter, longer and empty lists): marshal must return (value or error, no panic) and the unmarshalled object must have identical Bytes()/TxID/scripts/satoshis. distinct_nontrivial = distinct amounts + distinct transaction serialisations round-tripped",
+		Rule: "exhaustive: (amounts) every amount 0..2,000,000 (quick) / 0..100,000,000 (thorough) and ~8,300 decimal-boundary amounts up to 21e14 through Output and UTXO in both JSON dialects (marshal -> unmarshal -> equal satoshis/script/txid/vout); (transactions) product of shapes nIn 0..3 x nOut 0..3 x signing state {unsigned(nil scripts), first input only, all, empty scripts} x 59 output-script kinds (7 multisig-shaped scripts whose counts do not match their keys, P2PKH, empty, data with pushes of 1..5 bytes, multisig, inscription, odd pushes, 300 bytes, 12 scripts that end inside a push: every partial PUSHDATA1/2/4 length field and short payloads, and the inscription template with each token replaced by an empty PUSHDATA1 / PUSHDATA4 push) x boundary amounts x version/locktime values, plus coinbase-shaped transactions (null outpoint) in every signing state, each marshalled as Tx (library and node dialect), Txs list (node), []*Tx, per-output Output (both), UTXOs list (node) and []*UTXO (also with one outpoint named three times), a Tx variable decoded into twice (both dialects), the node-dialect lists also decoded into a list variable that was decoded into before (shorter, longer and empty lists): marshal must return (value or error, no panic) and the unmarshalled object must have identical Bytes()/TxID/scripts/satoshis. distinct_nontrivial = distinct amounts + distinct transaction serialisations round-tripped",
 	})
 	sA := NewSpace(p, "amounts", c16AmtCheck)
 	sT := NewSpace(p, "transactions", c16TxCheck)
@@ -447,6 +471,16 @@ func init() {
 								cases = append(cases, c16Tx{R: txRecipe{V: v, LT: v ^ uint32(ai), NIn: nin, NOut: nout, Vout: uint32(ai), Seq: 0xffffffff - uint32(sk), SLen: 2, PrevSats: 5, PrevLen: 25, OLen: 1}, Signed: signed, Script: sk, Amt: a})
 							}
 						}
+					}
+				}
+			}
+		}
+		// coinbase-shaped transactions (one input spending the null outpoint), in every signing state
+		for nout := 0; nout <= 2; nout++ {
+			for signed := 0; signed < 4; signed++ {
+				for _, seq := range []uint32{0xffffffff, 0, 5} {
+					for sk := 0; sk < 2; sk++ {
+						cases = append(cases, c16Tx{R: txRecipe{V: 1, LT: 0, NIn: 1, NOut: nout, Vout: 0, Seq: seq, SLen: 2, PrevSats: 5, PrevLen: 25, OLen: 1, NullIn0: true}, Signed: signed, Script: sk, Amt: 50_0000_0000})
 					}
 				}
 			}
